@@ -1,5 +1,6 @@
 import Proofs.Lemmas.CabEncode
 import MsPack.Kwaj.Extract
+import MsPack.Spec.Kwaj
 /-!
 # C05 — KWAJ: header fields and stored / xor payloads
 
@@ -16,33 +17,6 @@ namespace MsPack.Kwaj
 open MsPack MsPack.Generated
 open MsPack.Oab (enc32 read_prefix readExact_prefix drop_after ofNat_toNat_lt)
 open MsPack.Cab (enc16 u16_enc16 u32_enc32)
-
-structure KwajSpec where
-  xor      : Bool
-  length   : Option Nat
-  unk1     : Option Nat
-  unk2     : Option Bytes
-  extra    : Option Bytes
-  data     : Bytes
-
-def bit (b : Bool) (v : Nat) : Nat := if b then v else 0
-
-def KwajSpec.flags (k : KwajSpec) : Nat :=
-  bit k.length.isSome 1 + bit k.unk1.isSome 2 + bit k.unk2.isSome 4 + bit k.extra.isSome 0x20
-
-def optLength (k : KwajSpec) : Bytes := match k.length with | some n => enc32 n | none => []
-def optUnk1 (k : KwajSpec) : Bytes := match k.unk1 with | some n => enc16 n | none => []
-def optUnk2 (k : KwajSpec) : Bytes := match k.unk2 with | some b => enc16 b.length ++ b | none => []
-def optExtra (k : KwajSpec) : Bytes := match k.extra with | some b => enc16 b.length ++ b | none => []
-
-def KwajSpec.dataOffset (k : KwajSpec) : Nat :=
-  14 + (optLength k).length + (optUnk1 k).length + (optUnk2 k).length + (optExtra k).length
-
-def payload (k : KwajSpec) : Bytes := if k.xor then k.data.map (· ^^^ 0xFF) else k.data
-
-def encodeKwaj (k : KwajSpec) : Bytes :=
-  (enc32 0x4A41574B ++ enc32 0xD127F088 ++ enc16 (if k.xor then 1 else 0) ++ enc16 k.dataOffset ++ enc16 k.flags) ++
-  (optLength k ++ (optUnk1 k ++ (optUnk2 k ++ (optExtra k ++ payload k))))
 
 def KwajSpec.wf (k : KwajSpec) : Prop :=
   (∀ n, k.length = some n → n < 4294967296) ∧ (∀ n, k.unk1 = some n → n < 65536) ∧
